@@ -107,11 +107,16 @@ def body_monotone(ctx, case):
 def body_czero(ctx, case):
     from OpenPinch.utils import heat_exchanger as hx
     a, form = case["arr"], case["form"]
+    P = case.get("passes")
     N = ctx.real("N", 1.0 / 16, 10)
-    eff = hx.HX_Eff(_label(a, form), N, ctx.const(0.0))
-    ctx.require(h.close(eff, 1 - _exp(-N), EQ), f"{a}/{form}: effectiveness equals 1 - exp(-NTU) at zero capacity ratio")
-    back = hx.HX_NTU(_label(a, form), eff, ctx.const(0.0))
-    ctx.require(h.close(back, N, 1e-7), f"{a}/{form}: round trip at zero capacity ratio")
+    eff = hx.HX_Eff(_label(a, form), N, ctx.const(0.0), P)
+    # with P passes the code computes 1 - exp(-N/P) per pass and recombines: 1 - (exp(-N/P))^P, the same number
+    want = 1 - _exp(-N) if not P or P == 1 else 1 - _exp(-N / P) ** P
+    ctx.require(h.close(eff, want, EQ), f"{a}/{form}: effectiveness equals 1 - exp(-NTU) at zero capacity ratio" + (f" ({P} passes)" if P else ""))
+    back = hx.HX_NTU(_label(a, form), eff, ctx.const(0.0), P)
+    ctx.require(h.close(back, N, 1e-7), f"{a}/{form}: round trip at zero capacity ratio" + (f" ({P} passes)" if P else ""))
+    if P and P > 1:
+        ctx.tag("multi-pass at zero capacity ratio")
 
 
 def body_inverse_first(ctx, case):
@@ -211,7 +216,9 @@ def cases_forms(tier, seed):
 
 
 def cases_czero(tier, seed):
-    return [{"arr": a, "form": f} for a in ARR if a not in ("CrFUU",) for f in ("member", "text")]
+    out = [{"arr": a, "form": f} for a in ARR if a not in ("CrFUU",) for f in ("member", "text")]
+    out += [{"arr": a, "form": "member", "passes": p} for a in ("CF", "PF") for p in ((2,) if tier == "quick" else (2, 3, 4))]
+    return out
 
 
 AX = ["math.exp / math.log are uninterpreted functions with instantiated axioms: exp x > 0; exp x >= 1 + x; exp x <= 1/(1-x) for x < 1; "
@@ -236,8 +243,8 @@ FAMILIES = [
            bounds="closed-form arrangements x both label forms; two symbolic NTU values N1 + 1/64 <= N2 on one path", assumptions=AX,
            shim_modules=SHIMS, timeout_ms=30000, split_paths=0),
     Family(name="czero", cases=cases_czero, body=body_czero, functions=["HX_Eff", "HX_NTU"], files=FILES,
-           bounds="every arrangement except the 20-term cross-flow series x both label forms at capacity ratio exactly 0, NTU symbolic", assumptions=AX,
-           shim_modules=SHIMS, timeout_ms=30000, split_paths=0),
+           bounds="every arrangement except the 20-term cross-flow series x both label forms at capacity ratio exactly 0, NTU symbolic; counter and parallel flow also with 2 (thorough 2-4) passes", assumptions=AX,
+           shim_modules=SHIMS, timeout_ms=30000, split_paths=0, reach=["multi-pass at zero capacity ratio"]),
     Family(name="lmtd", cases=lambda tier, seed: [{}], body=body_lmtd, functions=["compute_LMTD_from_dts"], files=FILES,
            bounds="end differences z3 reals in [-5, 200] (equal, nearly equal and non-positive ones are solver choices)", assumptions=AX,
            shim_modules=SHIMS, timeout_ms=30000, split_paths=0, reach=["refused", "accepted"]),
